@@ -773,9 +773,19 @@ def hostile_family(tier, seed):
                     return InpListCrown([build(v) for v in c["map"]], extra_policy=POL[c["extra"]])
                 return InpFieldCrown(c["id"])
 
+            def mk_sieve(k):
+                def hostile_sieve(obj, value):
+                    raise AssertionError
+                tag(hostile_sieve, f"sieve:{k}")
+                _KEEP.append(hostile_sieve)
+                return hostile_sieve
+
             def build_out(c):
                 if c["t"] == "dict":
-                    return OutDictCrown({k: build_out(v) for k, v in c["map"].items()}, sieves={})
+                    # every key of a dict node that maps straight to a field is sieved: the key text also reaches the
+                    # conditional-append template
+                    sv = {k: mk_sieve(k) for k in c.get("sieves", {})}
+                    return OutDictCrown({k: build_out(v) for k, v in c["map"].items()}, sieves=sv)
                 if c["t"] == "list":
                     return OutListCrown([build_out(v) for v in c["map"]])
                 return OutFieldCrown(c["id"])
@@ -819,6 +829,16 @@ def hostile_family(tier, seed):
                                                    original=None, accessor=acc))
                     oshape = OutputShape(fields=tuple(ofields), overriden_types=frozenset())
                     ocj = json.loads(json.dumps(cj))
+
+                    def add_sieves(c):
+                        if c["t"] == "dict":
+                            c["sieves"] = {k: "custom" for k, v in c["map"].items() if v["t"] == "field"}
+                            for v in c["map"].values():
+                                add_sieves(v)
+                        elif c["t"] == "list":
+                            for v in c["map"]:
+                                add_sieves(v)
+                    add_sieves(ocj)
                     olayout = OutputNameLayout(crown=build_out(ocj), extra_move=None)
                     dumpers = {}
                     for fid in ids:
